@@ -11,6 +11,7 @@
     sizes; oracle: what the handler (or the requestor) reads through every accessor equals the
     original after re-encoding both in a canonical syntax.
 """
+from harness import poolinit as _e2e_exit
 import os
 import tempfile
 from io import BytesIO
@@ -389,7 +390,7 @@ def run(ctx):
         jobs.append((ctx.rng.getrandbits(30), ts_name, ctx.rng.choice([0, 1024, 4096, 16382]),
                      ctx.rng.random() < 0.5, ctx.rng.random() < 0.4, label))
     cjobs = [("cget", ctx.rng.getrandbits(30)) for _ in range(ctx.n(6, 120))]
-    pool = mp.get_context("fork").Pool(processes=12, maxtasksperchild=10)
+    pool = mp.get_context("fork").Pool(processes=12, maxtasksperchild=10, initializer=_e2e_exit.no_join_at_exit)
     try:
         results = pool.map(_job, jobs, chunksize=1)
         cresults = pool.map(_job, cjobs, chunksize=1)
